@@ -71,6 +71,23 @@
 (*                 (TlsAuth!BotchedReload): nothing changes - later         *)
 (*                 handshakes see the identity installed last, and the next *)
 (*                 reload takes effect like any other.                      *)
+(*  op = "botch" with cause = "ca" (step / rstep): the reload request      *)
+(*                 found the client-CA BUNDLE unusable: the harness         *)
+(*                 overwrote the file at the configured path in place with  *)
+(*                 `junk` (nothing, a PEM private key, a PEM certificate    *)
+(*                 cut short, random bytes) and called reload_tls_identity  *)
+(*                 (duplex: `res` = what the call returned) or raised       *)
+(*                 SIGUSR1 (TlsAuth!BotchedReloadCA).  Nothing changes: the *)
+(*                 connects that follow are judged by the configuration in  *)
+(*                 force BEFORE the botch - a client without a certificate  *)
+(*                 or with a foreign one is refused, the trusted one is     *)
+(*                 served.  The next "reload" restores the bundle first.    *)
+(*  op = "badstart" (step, first line of a script): make_tls_identity was   *)
+(*                 called on such a file (TlsAuth!BotchedStart): res =      *)
+(*                 "err" (the harness then starts the server on the valid   *)
+(*                 bundle) or "ok" (the connects that follow are served by  *)
+(*                 THAT identity); either way they are judged by the        *)
+(*                 configured client CA.                                    *)
 (*  RETURNING CLIENTS THAT RESUME.  Every connect line (step / rstep) says    *)
 (*                 how the client was made and what it observed of           *)
 (*                 resumption: keep (a raw rustls client whose ClientConfig, *)
@@ -109,6 +126,9 @@ CONSTANT Collect
 Rec == ndJsonDeserialize(IOEnv.TRACE)
 
 VARIABLE l
+\* the client-CA bundle was unusable when the server read it last (botch / badstart with cause "ca" since the last reload
+\* of the script): only names the signature of a deviation, the judgement is the machine's
+VARIABLE caBroken
 
 (* ------------------------------ matrix lines ------------------------------ *)
 CaseOf(r) == [serverCert |-> r.serverCert, nameMatches |-> r.nameMatches, skipVerify |-> r.skipVerify,
@@ -175,8 +195,12 @@ RoundTrips(r) ==
 
 ShowsIdentity(r, v) == r.seen_cn = IdentCN(v) /\ r.seen_serial = IdentSerial(v) /\ r.seen_issuer = "trusted-ca"
 
-StepOps == {"connect", "reload", "rotate", "use"}
-RStepOps == StepOps \cup {"botch"}
+StepOps == {"connect", "reload", "rotate", "use", "botch", "badstart"}
+RStepOps == {"connect", "reload", "rotate", "use", "botch"}
+BotchCauses == {"key", "ca"}
+Junk == {"empty", "key", "truncated", "random"}
+\* a botch / badstart line whose cause is the client-CA bundle
+CaBotch(r) == r.cause = "ca" /\ r.junk \in Junk /\ wantCA = "configured"
 
 \* the subject the harness gives the client certificate `cc`, and the CA certificate of `x`
 ClientCN(cc) == "cli-" \o cc
@@ -210,12 +234,14 @@ JudgeSig(o, cc) ==
       isgen == IsGen(cc, wantGen)
       g == IF isgen THEN GenOf(cc, wantGen) ELSE 0
   IN IF o = "ok" /\ ~ServerAccepts(k)
-     THEN (IF isgen /\ g < dueGen THEN "reload_keeps_retired_client_ca"
+     THEN (IF caBroken THEN "unusable_client_ca_disables_client_auth"
+           ELSE IF isgen /\ g < dueGen THEN "reload_keeps_retired_client_ca"
            ELSE IF isgen /\ g > dueGen THEN "ca_rotation_effective_before_reload"
            ELSE IF identityVersion > 0 THEN "reload_drops_client_auth"
            ELSE "server_accepts_unauthenticated_client")
      ELSE IF o = "serverRejects" /\ ServerAccepts(k)
-     THEN (IF dueGen > 0 THEN "reload_rejects_new_client_ca"
+     THEN (IF caBroken THEN "unusable_client_ca_locks_out_clients"
+           ELSE IF dueGen > 0 THEN "reload_rejects_new_client_ca"
            ELSE IF wantGen > dueGen THEN "ca_rotation_effective_before_reload"
            ELSE IF identityVersion > 0 THEN "handshake_fails_after_reload"
            ELSE IF ServerAsksForCert(k) THEN "server_rejects_valid_client_cert"
@@ -252,6 +278,16 @@ MatchStep(r) ==
          /\ r.res = "ok"
          /\ r.to = identityVersion + 1
     [] r.op = "rotate" -> MatchRotate(r)
+    [] r.op = "botch" ->
+         \* reload_tls_identity was called while the client-CA bundle was unusable: it reported a failure - or it did not;
+         \* what it did to the server is judged at the connects that follow
+         /\ CaBotch(r)
+         /\ r.n = botched + 1
+         /\ r.res \in {"err", "ok"}
+    [] r.op = "badstart" ->
+         /\ CaBotch(r)
+         /\ identityVersion = 0 /\ conns = <<>> /\ botched = 0
+         /\ r.res \in {"err", "ok"}
     [] r.op = "use" ->
          \* an established connection is not disturbed by the reloads since and keeps its identity
          /\ r.conn \in DOMAIN conns
@@ -265,6 +301,8 @@ SigStep(r) ==
   IF r.op \notin StepOps THEN (IF r.op = "panic" THEN "panic:script" ELSE "other:malformed_line")
   ELSE IF r.op = "reload" THEN (IF r.res = "panic" THEN "panic:reload" ELSE "reload_failed")
   ELSE IF r.op = "rotate" THEN "other:malformed_line"
+  ELSE IF r.op \in {"botch", "badstart"}
+  THEN (IF r.res = "panic" THEN "panic:" \o r.op ELSE IF r.res = "timeout" THEN "failed_reload_hangs" ELSE "other:malformed_line")
   ELSE IF "panic" \in {r.client_hs, r.server_hs, r.client_rt, r.server_rt} THEN "panic:" \o r.op
   ELSE IF r.op = "connect"
   THEN IF r.cc \notin Presentable \/ r.mtls # (wantCA = "configured") \/ ~ResumeFields(r) THEN "other:malformed_line"
@@ -278,7 +316,8 @@ SigStep(r) ==
                THEN "handshake_fails_after_reload"
                ELSE IF r.client_hs = "ok" /\ ~ShowsIdentity(r, live) THEN "new_handshake_sees_stale_identity"
                ELSE IF o # "ok" /\ (r.srv_data # "" \/ r.cli_data # "") THEN "data_delivered_despite_rejection"
-               ELSE IF o = "ok" /\ r.mtls /\ ~r.srv_saw_client_cert THEN "server_did_not_authenticate_client"
+               ELSE IF o = "ok" /\ r.mtls /\ ~r.srv_saw_client_cert
+               THEN (IF caBroken THEN "unusable_client_ca_disables_client_auth" ELSE "server_did_not_authenticate_client")
                ELSE IF ~r.mtls /\ r.srv_saw_client_cert THEN "server_asks_client_cert_without_ca"
                ELSE IF o = "ok" /\ r.mtls /\ r.srv_saw_client_cn # ClientCN(r.cc) THEN "server_saw_another_client_cert"
                ELSE "other:connect"
@@ -329,9 +368,12 @@ MatchRStep(r) ==
          /\ RReached(r) /\ r.client_rt = "ok"
     [] r.op = "rotate" -> MatchRotate(r)
     [] r.op = "botch" ->
-         \* the harness made the key file unusable and its SIGUSR1 was delivered
+         \* the harness made the key file (cause "key") or the client-CA bundle (cause "ca") unusable and its SIGUSR1 was
+         \* delivered
          /\ r.res = "signalled"
          /\ r.n = botched + 1
+         /\ r.cause \in BotchCauses
+         /\ r.cause = "ca" => CaBotch(r)
     [] r.op = "use" ->
          /\ r.conn \in DOMAIN conns
          /\ RReached(r) /\ r.client_rt = "ok"
@@ -438,11 +480,18 @@ Advance(r) ==
     [] r.ev \in {"step", "rstep"} /\ r.op = "connect" /\ r.cc \in Presentable -> ConnectLine(r)
     [] r.ev \in {"step", "rstep"} /\ r.op = "reload" -> Reload
     [] r.ev \in {"step", "rstep"} /\ r.op = "rotate" /\ wantCA = "configured" -> Rotate
-    [] r.ev = "rstep" /\ r.op = "botch" -> BotchedReload
+    [] r.ev \in {"step", "rstep"} /\ r.op = "botch" -> IF r.cause = "ca" /\ wantCA = "configured" THEN BotchedReloadCA ELSE BotchedReload
     [] r.ev \in {"step", "rstep"} /\ r.op = "use" /\ r.conn \in DOMAIN conns -> Use(r.conn)
     [] r.ev = "cstep" /\ r.op = "connect" /\ r.srv \in CPresentable -> CConnect(r.srv)
     [] r.ev = "cstep" /\ r.op = "rotate" -> CRotate
     [] OTHER -> UNCHANGED mvars
+
+\* (a script header, a reload: the bundle at the path is the valid one again)
+NextBroken(r) ==
+  IF r.ev \in {"script", "rscript", "cscript"} THEN FALSE
+  ELSE IF r.ev \in {"step", "rstep"} /\ r.op = "reload" THEN FALSE
+  ELSE IF r.ev \in {"step", "rstep"} /\ r.op \in {"botch", "badstart"} THEN (caBroken \/ r.cause = "ca")
+  ELSE caBroken
 
 Match(r) ==
   CASE r.ev = "case"   -> MatchCase(r)
@@ -463,7 +512,7 @@ Sig(r) ==
 
 ConnectView(r, o) ==
   [outcome |-> HandshakeOutcome(r.cc), observed |-> o, clientHoldsTicket |-> Held(r.cc) # {}, mayBeResumption |-> MayResume(r.cc),
-   serverClientCA |-> wantCA, reloadsSoFar |-> identityVersion,
+   serverClientCA |-> wantCA, reloadsSoFar |-> identityVersion, clientCaBundleUnusableWhenReadLast |-> caBroken,
    caGenerationAtPath |-> wantGen, caGenerationAtLastReload |-> dueGen, failedReloadsSoFar |-> botched,
    identity |-> live, cn |-> IdentCN(live), conn |-> (IF Admitted(r.cc) THEN Len(conns) + 1 ELSE 0)]
 
@@ -482,7 +531,10 @@ ExpectView(r) ==
     [] r.ev = "rstep" /\ r.op = "reload" ->
          [res |-> "ok", to |-> identityVersion + 1, serial |-> IdentSerial(identityVersion + 1), failedReloadsSoFar |-> botched,
           probe |-> (IF wantCA = "configured" THEN GenName(wantGen) ELSE "none"), probeOutcome |-> "ok"]
-    [] r.ev = "rstep" /\ r.op = "botch" -> [res |-> "signalled", n |-> botched + 1, identityServedAfterwards |-> live]
+    [] r.ev = "rstep" /\ r.op = "botch" -> [res |-> "signalled", n |-> botched + 1, identityServedAfterwards |-> live,
+                                           clientCAInForceAfterwards |-> liveCA]
+    [] r.ev = "step" /\ r.op \in {"botch", "badstart"} ->
+         [res |-> {"err", "ok"}, n |-> botched + 1, identityServedAfterwards |-> live, clientCAInForceAfterwards |-> liveCA]
     [] r.ev = "rstep" /\ r.op = "use" /\ r.conn \in DOMAIN conns ->
          [roundtrip |-> "ok", identity |-> conns[r.conn].ver, cn |-> IdentCN(conns[r.conn].ver)]
     [] r.ev = "cstep" /\ r.op = "connect" /\ r.srv \in CPresentable ->
@@ -494,6 +546,7 @@ ExpectView(r) ==
 \* registers: 1 = furthest line reached, 3 = unmatched lines (Collect) as <<line, signature, expectation>>
 Init == /\ l = 1
         /\ MInit
+        /\ caBroken = FALSE
         /\ TLCSet(1, 1) /\ TLCSet(3, <<>>)
 
 Step ==
@@ -501,10 +554,11 @@ Step ==
   /\ IF Match(Rec[l]) THEN TRUE
      ELSE Collect /\ TLCSet(3, Append(TLCGet(3), <<l, Sig(Rec[l]), ToJson(ExpectView(Rec[l]))>>))
   /\ Advance(Rec[l])
+  /\ caBroken' = NextBroken(Rec[l])
   /\ l' = l + 1
 
 Next == Step
-Spec == Init /\ [][Next]_<<l, mvars>>
+Spec == Init /\ [][Next]_<<l, mvars, caBroken>>
 
 Track == IF TLCGet(1) < l THEN TLCSet(1, l) ELSE TRUE
 
